@@ -399,6 +399,21 @@ theorem clearTable_eq_memset (m : Mem) (f : Nat) :
       ∀ pa, mem' pa = byteView (m.setFrame f (fun _ => 0)) pa :=
   Firefly.Vmm.clearTable_eq_memset m f
 
+/-- **flags_architectural.** The kernel's flag constants and frame mask, as regenerated from the compiled
+package, are the x86-64 page-table entry bits — stated against *literals*, so a constant that drifts
+(e.g. an alias inserted into the `iota` block) breaks this theorem: Present bit 0, RW 1, User 2,
+WriteThrough 3, NoCache 4, Accessed 5, Dirty 6, HugePage 7, Global 8, CopyOnWrite 9 (software),
+NoExecute 63, frame field bits 12–51; 4 levels of 9 bits at shifts 39/30/21/12. -/
+theorem flags_architectural :
+    Firefly.Gen.C04.flagPresent = 2 ^ 0 ∧ Firefly.Gen.C04.flagRW = 2 ^ 1 ∧
+    Firefly.Gen.C04.flagUserAccessible = 2 ^ 2 ∧ Firefly.Gen.C04.flagWriteThroughCaching = 2 ^ 3 ∧
+    Firefly.Gen.C04.flagDoNotCache = 2 ^ 4 ∧ Firefly.Gen.C04.flagAccessed = 2 ^ 5 ∧
+    Firefly.Gen.C04.flagDirty = 2 ^ 6 ∧ Firefly.Gen.C04.flagHugePage = 2 ^ 7 ∧
+    Firefly.Gen.C04.flagGlobal = 2 ^ 8 ∧ Firefly.Gen.C04.flagCopyOnWrite = 2 ^ 9 ∧
+    Firefly.Gen.C04.flagNoExecute = 2 ^ 63 ∧ Firefly.Gen.C04.ptePhysPageMask = 0x000ffffffffff000 ∧
+    Firefly.Gen.C04.pageLevels = 4 ∧ Firefly.Gen.C04.pageLevelBits = [9, 9, 9, 9] ∧
+    Firefly.Gen.C04.pageLevelShifts = [39, 30, 21, 12] ∧ Firefly.Gen.C04.pageShift = 12 := by decide
+
 /-- D13 (domain boundary): `SetFrame` does not mask the frame number: frame 2^40 spills into bit 52
 and the hardware frame field reads 0.  Frame numbers < 2^40 (`FrameOK`) are a hypothesis above. -/
 theorem setframe_needs_40_bits :
